@@ -755,3 +755,342 @@ Print Assumptions C06_src_hasher_push_cv.
 Print Assumptions C06_src_blake3_hasher_finalize_seek_loop1.
 Print Assumptions C06_src_blake3_hasher_finalize_seek.
 Print Assumptions C06_src_blake3_hasher_finalize_seek_256.
+
+(* ---- the wide core of c/blake3.c, translated (gen/GenCHasherWide.v) ---------------------------------------------
+   compress_chunks_parallel, compress_parents_parallel, blake3_compress_subtree_wide (the non-TBB arm of its #if; the
+   recursion is a Fixpoint on fuel with `match fuel` after the leading `if (..) { return ..; }`),
+   compress_subtree_to_parent_node (its `#if MAX_SIMD_DEGREE_OR_2 > 2` block is an `if` on the build constant) and
+   blake3_hasher_update_base (the empty-input return, the "finish the partial chunk" prefix with its nested `return`, the
+   `while (input_len > BLAKE3_CHUNK_LEN)` loop with the shrink loop and the subtree_chunks computation INSIDE it, the
+   two push_cv calls, the trailing chunk_state_update + merge), statement by statement (tools/gen_coq.py
+   gen_c_hasher_wide).  A `(pointer, length)` pair is the list of all bytes from the pointer on plus the length; the
+   `const uint8_t *a[N]` arrays are lists of such lists with a bounds assert at every store; writes through `out` carry
+   a bounds assert with the model's code; `uint8_t *right_cvs = &cv_array[..]` splits the local array like
+   split_at_mut; BLAKE3_TESTING asserts carry the model's codes.  blake3_hash_many / blake3_simd_degree /
+   blake3_compress_in_place are parameters, instantiated with m_c_hash_many p / p_degree p / p_compress_in_place p.
+   Each translated function equals the model with the translation's fuel discipline (c_*_with, defining equations
+   below) on every argument of the declared shapes and every fuel, Panic and OutOfFuel included, EXCEPT where the model
+   flags a read of stack bytes nobody wrote (Panic 306 / 307 / 309: the C text has no such check and the translation's
+   zero-filled locals none either): the statements are `uninit_flag (model) \/ translation = model`.  The c_*_with
+   models refine Model/CHasher.v as soon as the fuel suffices.  Hypotheses: plat_wf p (shapes of the kernels' results,
+   Props/C01.v), p_max_degree p = c_MAX_SIMD_DEGREE (the build constant the text was translated with), an 8-word key,
+   flat_shape for hashers, lengths below 2^64.  Proofs in Proofs/GenCHasherWideP.v. *)
+From V Require Import Base.Slice gen.GenCHasherWide Model.RsWide Proofs.GenLibWideP Proofs.GenCHasherWideP.
+
+Theorem C06_src_wide_repr_def :
+  (forall p inputs num_inputs blocks key counter incr flags fs fe out,
+     m_c_hash_many p inputs num_inputs blocks key counter incr flags fs fe out =
+     (cvs <- p_hash_many p (map (firstn (N.to_nat (blocks * 64))) (firstn (N.to_nat num_inputs) inputs)) key counter incr
+               flags fs fe (nlen out / 32) ;;
+      Ok (arr_store out 0 (concat cvs)))) /\
+  (forall (A : Type) (r : res A), uninit_flag r <-> (r = Panic 306 \/ r = Panic 307 \/ r = Panic 309)) /\
+  (forall (A : Type) (a : list A) i v, (i < length a)%nat -> firstn (S i) (pa_set a i v) = firstn i a ++ [v]) /\
+  (forall (A : Type) (a : list A) i v, length (pa_set a i v) = length a).
+Proof.
+  split; [reflexivity|]. split; [intros; reflexivity|]. split; [intros; apply firstn_pa_set_snoc; assumption|].
+  intros. apply pa_set_length.
+Qed.
+Print Assumptions C06_src_wide_repr_def.
+
+(* the models with the translation's fuel discipline *)
+Theorem C06_src_cs_update_with_def : forall fuel p cs input,
+  c_cs_update_with fuel p cs input =
+  ('(cs, input) <-
+     (if 0 <? cs_buf_len cs then
+        '(cs, take) <- c_cs_fill_buf cs input ;;
+        let input := skipn (N.to_nat take) input in
+        if 0 <? nlen input then
+          let cv := p_compress_in_place p (cs_cv cs) (cs_buf cs) c_BLOCK_LEN (cs_ctr cs)
+                      (N.lor (cs_flags cs) (c_cs_start_flag cs)) in
+          blocks <- mi_add 8 (cs_blocks cs) 1 ;;
+          Ok (mkCS cv (cs_ctr cs) c_zero_block 0 blocks (cs_flags cs), input)
+        else Ok (cs, input)
+      else Ok (cs, input)) ;;
+   '(cs, input) <- c_cs_update_loop fuel p cs input ;;
+   '(cs, _) <- c_cs_fill_buf cs input ;;
+   Ok cs).
+Proof. reflexivity. Qed.
+Print Assumptions C06_src_cs_update_with_def.
+
+Theorem C06_src_chunks_parents_with_def : forall fuel p input child_cvs key chunk_counter flags cap,
+  c_compress_chunks_parallel_with fuel p input key chunk_counter flags cap =
+    (assert! (0 <? nlen input) code 1600 ;;
+     assert! (nlen input <=? p_max_degree p * c_CHUNK_LEN) code 1601 ;;
+     let '(chunks, rem) := chunks_exact_of c_CHUNK_LEN input in
+     if Nat.ltb fuel (length chunks) then OutOfFuel else
+     assert! (nlen_l chunks <=? p_max_degree p) code 301 ;;
+     cvs <- p_hash_many p chunks key chunk_counter true flags c_flag_CHUNK_START c_flag_CHUNK_END cap ;;
+     let chunks_array_len := nlen_l chunks in
+     if 0 <? nlen rem then
+       counter <- mi_add 64 chunk_counter chunks_array_len ;;
+       let cs0 := c_cs_init key flags in
+       let cs0 := mkCS (cs_cv cs0) counter (cs_buf cs0) (cs_buf_len cs0) (cs_blocks cs0) (cs_flags cs0) in
+       cs <- c_cs_update_with fuel p cs0 rem ;;
+       assert! (chunks_array_len + 1 <=? cap) code 302 ;;
+       Ok (cvs ++ [c_output_chaining_value p (c_cs_output cs)])
+     else Ok cvs) /\
+  c_compress_parents_parallel_with fuel p child_cvs key flags cap =
+    (let num := nlen_l child_cvs in
+     assert! (2 <=? num) code 1602 ;;
+     assert! (num <=? 2 * max_degree_or_2 p) code 1603 ;;
+     let '(parents, odd) := pair_blocks child_cvs in
+     if Nat.ltb fuel (length parents) then OutOfFuel else
+     assert! (nlen_l parents <=? max_degree_or_2 p) code 303 ;;
+     outs <- p_hash_many p parents key 0 false (N.lor flags c_flag_PARENT) 0 0 cap ;;
+     match odd with
+     | Some cv => assert! (nlen_l parents + 1 <=? cap) code 304 ;; Ok (outs ++ [cv])
+     | None => Ok outs
+     end).
+Proof. intros. split; reflexivity. Qed.
+Print Assumptions C06_src_chunks_parents_with_def.
+
+Theorem C06_src_wide_with_def : forall fuel p input key chunk_counter flags cap,
+  c_compress_subtree_wide_with fuel p input key chunk_counter flags cap =
+  if nlen input <=? p_degree p * c_CHUNK_LEN then
+    c_compress_chunks_parallel_with fuel p input key chunk_counter flags cap
+  else match fuel with
+  | O => OutOfFuel
+  | S fuel' =>
+      left_len <- c_left_subtree_len (nlen input) ;;
+      _ <- mi_sub 64 (nlen input) left_len ;;
+      let left := firstn (N.to_nat left_len) input in
+      let right := skipn (N.to_nat left_len) input in
+      right_counter <- mi_add 64 chunk_counter (left_len / c_CHUNK_LEN) ;;
+      let array_cap := 2 * max_degree_or_2 p in
+      let degree := if (c_CHUNK_LEN <? left_len) && (p_degree p =? 1) then 2 else p_degree p in
+      assert! (degree <=? array_cap) code 305 ;;
+      lcvs <- c_compress_subtree_wide_with fuel' p left key chunk_counter flags degree ;;
+      rcvs <- c_compress_subtree_wide_with fuel' p right key right_counter flags (array_cap - degree) ;;
+      let left_n := nlen_l lcvs in
+      let right_n := nlen_l rcvs in
+      assert! (left_n =? degree) code 306 ;;
+      if left_n =? 1 then
+        assert! (1 <=? right_n) code 307 ;;
+        assert! (2 <=? cap) code 308 ;;
+        Ok (firstn 2 (lcvs ++ rcvs))
+      else
+        c_compress_parents_parallel_with fuel' p (lcvs ++ rcvs) key flags cap
+  end.
+Proof. intros [|fuel]; reflexivity. Qed.
+Print Assumptions C06_src_wide_with_def.
+
+Theorem C06_src_tpn_with_def : forall fuel p input cvs key chunk_counter flags,
+  c_condense_loop_with fuel p cvs key flags =
+    (if nlen_l cvs <=? 2 then Ok cvs
+     else match fuel with
+          | O => OutOfFuel
+          | S fuel' =>
+              outs <- c_compress_parents_parallel_with fuel' p cvs key flags (max_degree_or_2 p / 2) ;;
+              c_condense_loop_with fuel' p outs key flags
+          end) /\
+  c_compress_subtree_to_parent_node_with fuel p input key chunk_counter flags =
+    (assert! (c_CHUNK_LEN <? nlen input) code 1604 ;;
+     cvs <- c_compress_subtree_wide_with fuel p input key chunk_counter flags (max_degree_or_2 p) ;;
+     assert! (nlen_l cvs <=? max_degree_or_2 p) code 1605 ;;
+     cvs <- (if 2 <? max_degree_or_2 p then c_condense_loop_with fuel p cvs key flags else Ok cvs) ;;
+     match cvs with a :: b :: _ => Ok (a ++ b) | _ => Panic 309 end).
+Proof. intros [|fuel]; intros; split; reflexivity. Qed.
+Print Assumptions C06_src_tpn_with_def.
+
+Theorem C06_src_update_with_def : forall fuel p h input new_cv chunk_counter,
+  c_push_cv_with fuel p h new_cv chunk_counter =
+    (h <- (post <- c_popcnt chunk_counter ;; c_merge_loop fuel p h post) ;;
+     assert! (ch_stack_len h <? c_cv_stack_slots) code 322 ;;
+     len' <- mi_add 8 (ch_stack_len h) 1 ;;
+     Ok (mkCH (ch_key h) (ch_chunk h) len' (upd_nth (N.to_nat (ch_stack_len h)) new_cv (ch_stack h)))) /\
+  c_update_loop_with fuel p h input =
+    (if nlen input <=? c_CHUNK_LEN then Ok (h, input)
+     else match fuel with
+     | O => OutOfFuel
+     | S fuel' =>
+         let cs := ch_chunk h in
+         subtree_len <- c_round_down_to_power_of_2 (nlen input) ;;
+         count_so_far <- c_count_so_far (cs_ctr cs) ;;
+         subtree_len <- c_shrink_loop fuel' subtree_len count_so_far ;;
+         subtree_chunks <- c_subtree_chunks subtree_len ;;
+         assert! (subtree_len <=? nlen input) code 323 ;;
+         h <- (if subtree_len <=? c_CHUNK_LEN then
+                 let cs0 := c_cs_init (ch_key h) (cs_flags cs) in
+                 let cs0 := mkCS (cs_cv cs0) (cs_ctr cs) (cs_buf cs0) (cs_buf_len cs0) (cs_blocks cs0) (cs_flags cs0) in
+                 cs1 <- c_cs_update_with fuel' p cs0 (firstn (N.to_nat subtree_len) input) ;;
+                 c_push_cv_with fuel' p h (c_output_chaining_value p (c_cs_output cs1)) (cs_ctr cs1)
+               else
+                 cv_pair <- c_compress_subtree_to_parent_node_with fuel' p (firstn (N.to_nat subtree_len) input) (ch_key h)
+                              (cs_ctr cs) (cs_flags cs) ;;
+                 h <- c_push_cv_with fuel' p h (firstn 32 cv_pair) (cs_ctr cs) ;;
+                 rc <- c_right_cv_counter (cs_ctr cs) subtree_chunks ;;
+                 c_push_cv_with fuel' p h (firstn 32 (skipn 32 cv_pair)) rc) ;;
+         ctr' <- mi_add 64 (cs_ctr cs) subtree_chunks ;;
+         let cs' := mkCS (cs_cv cs) ctr' (cs_buf cs) (cs_buf_len cs) (cs_blocks cs) (cs_flags cs) in
+         c_update_loop_with fuel' p (ch_with_chunk h cs') (skipn (N.to_nat subtree_len) input)
+     end) /\
+  c_hasher_update_with fuel p h input =
+    (if nlen input =? 0 then Ok h else
+     clen <- c_cs_len (ch_chunk h) ;;
+     r <- (if 0 <? clen then
+             take <- mi_sub 64 c_CHUNK_LEN clen ;;
+             let take := N.min take (nlen input) in
+             cs <- c_cs_update_with fuel p (ch_chunk h) (firstn (N.to_nat take) input) ;;
+             let input := skipn (N.to_nat take) input in
+             if 0 <? nlen input then
+               let chunk_cv := c_output_chaining_value p (c_cs_output cs) in
+               h <- c_push_cv_with fuel p (ch_with_chunk h cs) chunk_cv (cs_ctr cs) ;;
+               ctr' <- mi_add 64 (cs_ctr cs) 1 ;;
+               Ok (ch_with_chunk h (c_cs_reset cs (ch_key h) ctr'), input, false)
+             else Ok (ch_with_chunk h cs, input, true)
+           else Ok (h, input, false)) ;;
+     let '(h, input, done) := r in
+     if done then Ok h else
+     '(h, input) <- c_update_loop_with fuel p h input ;;
+     if 0 <? nlen input then
+       cs <- c_cs_update_with fuel p (ch_chunk h) input ;;
+       (post <- c_popcnt (cs_ctr cs) ;; c_merge_loop fuel p (ch_with_chunk h cs) post)
+     else Ok h).
+Proof. intros [|fuel]; intros; repeat split; reflexivity. Qed.
+Print Assumptions C06_src_update_with_def.
+
+(* chunk_state_update at every fuel; only the first input_len bytes of the list matter *)
+Theorem C06_src_chunk_state_update_with : forall p fuel self input n, cs_shape self -> n <= nlen input ->
+  res_map cs_of_src (src_chunk_state_update (p_compress_in_place p) fuel self input n)
+  = c_cs_update_with fuel p (cs_of_src self) (firstn (N.to_nat n) input).
+Proof. exact src_csu_with. Qed.
+Print Assumptions C06_src_chunk_state_update_with.
+
+Theorem C06_src_compress_chunks_parallel : forall p, plat_wf p -> forall fuel input input_len key chunk_counter flags out,
+  p_max_degree p = c_MAX_SIMD_DEGREE -> length key = 8%nat -> input_len <= nlen input -> nlen input < 2 ^ 64 ->
+  src_compress_chunks_parallel (m_c_hash_many p) (p_compress_in_place p) fuel input input_len key chunk_counter flags out
+  = res_map (fun cvs => (arr_store out 0 (concat cvs), nlen_l cvs))
+      (c_compress_chunks_parallel_with fuel p (firstn (N.to_nat input_len) input) key chunk_counter flags (nlen out / 32)).
+Proof. exact src_compress_chunks_parallel_eq. Qed.
+Print Assumptions C06_src_compress_chunks_parallel.
+
+(* the children: num_chaining_values CVs back to back at the front of the buffer *)
+Theorem C06_src_compress_parents_parallel : forall p, plat_wf p -> forall fuel child_cvs ccv key flags out,
+  p_max_degree p = c_MAX_SIMD_DEGREE -> length key = 8%nat -> cvs32 child_cvs ->
+  firstn (32 * length child_cvs) ccv = concat child_cvs ->
+  src_compress_parents_parallel (m_c_hash_many p) fuel ccv (nlen_l child_cvs) key flags out
+  = res_map (fun cvs => (arr_store out 0 (concat cvs), nlen_l cvs))
+      (c_compress_parents_parallel_with fuel p child_cvs key flags (nlen out / 32)).
+Proof. exact src_compress_parents_parallel_eq. Qed.
+Print Assumptions C06_src_compress_parents_parallel.
+
+Theorem C06_src_compress_subtree_wide : forall p, plat_wf p -> forall key flags,
+  p_max_degree p = c_MAX_SIMD_DEGREE -> length key = 8%nat ->
+  forall fuel input input_len chunk_counter out use_tbb, input_len <= nlen input -> nlen input < 2 ^ 64 ->
+  uninit_flag (c_compress_subtree_wide_with fuel p (firstn (N.to_nat input_len) input) key chunk_counter flags (nlen out / 32)) \/
+  src_blake3_compress_subtree_wide (p_degree p) (m_c_hash_many p) (p_compress_in_place p) fuel input input_len key chunk_counter
+    flags out use_tbb
+  = res_map (fun cvs => (arr_store out 0 (concat cvs), nlen_l cvs))
+      (c_compress_subtree_wide_with fuel p (firstn (N.to_nat input_len) input) key chunk_counter flags (nlen out / 32)).
+Proof. exact src_compress_subtree_wide_eq. Qed.
+Print Assumptions C06_src_compress_subtree_wide.
+
+Theorem C06_src_compress_subtree_to_parent_node : forall p, plat_wf p -> forall fuel input input_len key chunk_counter flags out use_tbb,
+  p_max_degree p = c_MAX_SIMD_DEGREE -> length key = 8%nat -> length out = 64%nat ->
+  input_len <= nlen input -> nlen input < 2 ^ 64 ->
+  uninit_flag (c_compress_subtree_to_parent_node_with fuel p (firstn (N.to_nat input_len) input) key chunk_counter flags) \/
+  src_compress_subtree_to_parent_node (p_degree p) (m_c_hash_many p) (p_compress_in_place p) fuel input input_len key
+    chunk_counter flags out use_tbb
+  = c_compress_subtree_to_parent_node_with fuel p (firstn (N.to_nat input_len) input) key chunk_counter flags.
+Proof. exact src_compress_subtree_to_parent_node_eq. Qed.
+Print Assumptions C06_src_compress_subtree_to_parent_node.
+
+(* hasher_merge_cv_stack / hasher_push_cv at every fuel (GenCHasherLoops.v states them at the model's fuel) *)
+Theorem C06_src_hasher_push_cv_with : forall p fuel (self : src_blake3_hasher (list N)) new_cv chunk_counter,
+  compress_len8 p -> flat_shape self -> length new_cv = 32%nat ->
+  res_map hasher_of_flat (src_hasher_push_cv (p_compress_in_place p) fuel self new_cv chunk_counter)
+  = c_push_cv_with fuel p (hasher_of_flat self) new_cv chunk_counter.
+Proof. exact src_hasher_push_cv_with. Qed.
+Print Assumptions C06_src_hasher_push_cv_with.
+
+(* the shrink loop IS the model's, at every fuel *)
+Theorem C06_src_shrink_loop : forall fuel subtree_len count_so_far, subtree_len < 2 ^ 64 ->
+  src_blake3_hasher_update_base_loop2 fuel subtree_len count_so_far = c_shrink_loop fuel subtree_len count_so_far.
+Proof. exact src_shrink_loop_eq. Qed.
+Print Assumptions C06_src_shrink_loop.
+
+Theorem C06_src_blake3_hasher_update_base : forall p, plat_wf p -> forall fuel (self : src_blake3_hasher (list N)) input input_len use_tbb,
+  p_max_degree p = c_MAX_SIMD_DEGREE -> flat_shape self -> input_len <= nlen input -> nlen input < 2 ^ 64 ->
+  uninit_flag (c_hasher_update_with fuel p (hasher_of_flat self) (firstn (N.to_nat input_len) input)) \/
+  res_map hasher_of_flat
+    (src_blake3_hasher_update_base (p_compress_in_place p) (p_degree p) (m_c_hash_many p) fuel self input input_len use_tbb)
+  = c_hasher_update_with fuel p (hasher_of_flat self) (firstn (N.to_nat input_len) input).
+Proof. exact src_blake3_hasher_update_base_eq. Qed.
+Print Assumptions C06_src_blake3_hasher_update_base.
+
+(* enough fuel *)
+Theorem C06_src_wide_enough : forall p key flags, p_max_degree p <= 16 ->
+  (forall fuel input chunk_counter cap, (17 <= fuel)%nat ->
+     c_compress_chunks_parallel_with fuel p input key chunk_counter flags cap
+     = c_compress_chunks_parallel p input key chunk_counter flags cap) /\
+  (forall fuel cvs cap, (16 <= fuel)%nat ->
+     c_compress_parents_parallel_with fuel p cvs key flags cap = c_compress_parents_parallel p cvs key flags cap) /\
+  (forall f fuel input chunk_counter cap, (f + 17 <= fuel)%nat ->
+     refines (c_compress_subtree_wide f p input key chunk_counter flags cap)
+             (c_compress_subtree_wide_with fuel p input key chunk_counter flags cap)) /\
+  (forall fuel input chunk_counter, (81 <= fuel)%nat ->
+     refines (c_compress_subtree_to_parent_node p input key chunk_counter flags)
+             (c_compress_subtree_to_parent_node_with fuel p input key chunk_counter flags)).
+Proof.
+  intros p key flags Hmax. assert (Hor : max_degree_or_2 p <= 16) by (unfold max_degree_or_2; apply N.max_lub; [exact Hmax|discriminate]).
+  split; [intros; apply c_chunks_with_enough; assumption|]. split; [intros; apply c_parents_with_enough; assumption|].
+  split; [intros; apply c_wide_with_refines; assumption|]. intros. apply c_tpn_with_refines; assumption.
+Qed.
+Print Assumptions C06_src_wide_enough.
+
+Theorem C06_src_hasher_update_enough : forall p fuel h input, p_max_degree p <= 16 ->
+  (S (Nat.div (length input) 1024) + 256 <= fuel)%nat ->
+  refines (c_hasher_update p h input) (c_hasher_update_with fuel p h input).
+Proof. exact c_hasher_update_with_refines. Qed.
+Print Assumptions C06_src_hasher_update_enough.
+
+(* hence: whenever the model's blake3_hasher_update returns (it does on every valid state: C06_step_refines_spec), the
+   translated blake3_hasher_update_base returns the same hasher *)
+Theorem C06_src_blake3_hasher_update_base_model : forall p, plat_wf p -> forall fuel (self : src_blake3_hasher (list N)) input use_tbb h',
+  p_max_degree p = c_MAX_SIMD_DEGREE -> flat_shape self -> nlen input < 2 ^ 64 ->
+  (S (Nat.div (length input) 1024) + 256 <= fuel)%nat ->
+  c_hasher_update p (hasher_of_flat self) input = Ok h' ->
+  res_map hasher_of_flat
+    (src_blake3_hasher_update_base (p_compress_in_place p) (p_degree p) (m_c_hash_many p) fuel self input (nlen input) use_tbb)
+  = Ok h'.
+Proof.
+  intros p WF fuel self input use_tbb h' Hmax HS Hin HF Hm.
+  assert (Hmax16 : p_max_degree p <= 16) by (rewrite Hmax; discriminate).
+  pose proof (refines_ok _ _ (c_hasher_update_with_refines p fuel (hasher_of_flat self) input Hmax16 HF)) as HR.
+  rewrite Hm in HR. specialize (HR ltac:(discriminate)).
+  destruct (src_blake3_hasher_update_base_eq p WF fuel self input (nlen input) use_tbb Hmax HS (N.le_refl _) Hin) as [HFl|HE].
+  - rewrite firstn_nlen, HR in HFl. destruct HFl as [H|[H|H]]; discriminate H.
+  - rewrite firstn_nlen, HR in HE. exact HE.
+Qed.
+Print Assumptions C06_src_blake3_hasher_update_base_model.
+
+(* output_root_bytes: `out += n` on the written pointer moves an offset variable (out_off); the two memcpy from wide_buf
+   carry the model's bounds asserts 310 / 312, the writes to `out` an assert (code 313) that they stay inside it.
+   blake3_compress_xof / blake3_xof_many are parameters (m_c_compress_xof p / m_c_xof_many p: the model's kernels, the
+   latter stored at the pointer it is given).  The model returns the bytes written, the translation the buffer: the
+   statement is the stand-in m_output_root_bytes that GenCHasherLoops.v's blake3_hasher_finalize_seek is instantiated
+   with.  xof_wf p: compress_xof returns 64 bytes, xof_many 64 per block (what `uint8_t out[64]` / `outblocks` promise);
+   every platform with the portable kernels has it. *)
+Theorem C06_src_xof_repr_def :
+  (forall p cv block bl ctr fl out n,
+     m_c_xof_many p cv block bl ctr fl out n = (bs <- p_xof_many p cv block bl ctr fl n ;; Ok (arr_store out 0 bs))) /\
+  (forall p cv block bl ctr fl out, m_c_compress_xof p cv block bl ctr fl out = p_compress_xof p cv block bl ctr fl) /\
+  (forall p, xof_wf p <->
+     ((forall cv block bl ctr fl, length cv = 8%nat -> length block = 64%nat ->
+         length (p_compress_xof p cv block bl ctr fl) = 64%nat) /\
+      (forall cv block bl ctr fl n bs, length cv = 8%nat -> length block = 64%nat ->
+         p_xof_many p cv block bl ctr fl n = Ok bs -> length bs = (64 * N.to_nat n)%nat))) /\
+  (forall d m, xof_wf (sim_platform d m)).
+Proof.
+  split; [reflexivity|]. split; [reflexivity|]. split; [|exact sim_platform_xof_wf].
+  intros p. split; [intros [A B]; split; assumption|intros [A B]; constructor; assumption].
+Qed.
+Print Assumptions C06_src_xof_repr_def.
+
+Theorem C06_src_output_root_bytes : forall p, xof_wf p -> forall self seek out out_len,
+  length (output_t_input_cv self) = 8%nat -> length (output_t_block self) = 64%nat ->
+  seek < 2 ^ 64 -> out_len <= nlen out -> nlen out < 2 ^ 64 ->
+  src_output_root_bytes (m_c_compress_xof p) (m_c_xof_many p) self seek out out_len
+  = m_output_root_bytes p self seek out out_len.
+Proof. exact src_output_root_bytes_eq. Qed.
+Print Assumptions C06_src_output_root_bytes.
